@@ -232,11 +232,15 @@ def run(ctx, res):
     # --- targeted search: when the correspondence broke, look for a concrete null population on the disagreeing
     #     configurations (finite N, two-valued populations with the largest mean the null allows, N up to 20)
     if cr.bad and not res.oracle_violations:
+        import time as _time
         seen = set()
-        for c0, _ in cr.bad:
+        t_end = _time.time() + 240            # search budget
+        # configurations where a running statistic of the data weighs most come first
+        order = sorted(cr.bad, key=lambda cm: (-float(cm[0]["cfg"]["p"].get("f", 0)), float(cm[0]["cfg"]["p"].get("d", 0))))
+        for c0, _ in order:
             cfg = dict(c0["cfg"])
             key = repr((cfg["kind"], cfg["p"]))
-            if key in seen or len(seen) >= 8 or cfg["kind"] in ("km", "kw"):
+            if key in seen or len(seen) >= 24 or cfg["kind"] in ("km", "kw") or _time.time() > t_end:
                 continue
             seen.add(key)
             u, t = cfg["u"], cfg["t"]
